@@ -10,6 +10,7 @@
 #include "corecel/Macros.hh"
 #include "corecel/Types.hh"
 #include "corecel/data/StackAllocator.hh"
+#include "corecel/math/Algorithms.hh"
 #include "corecel/math/ArrayUtils.hh"
 #include "celeritas/Constants.hh"
 #include "celeritas/Quantities.hh"
@@ -151,7 +152,10 @@ CELER_FUNCTION Interaction KleinNishinaInteractor::operator()(Engine& rng)
         CELER_ASSERT(epsilon >= epsilon_0 && epsilon <= 1);
 
         // Calculate angles: need sin^2 \theta for rejection
-        one_minus_costheta = (1 - epsilon) / (epsilon * inc_energy_per_mecsq);
+        // (bounded: for epsilon at its kinematic minimum rounding can give a
+        // value slightly above 2, i.e. a negative sin^2 and a NaN direction)
+        one_minus_costheta = celeritas::min<real_type>(
+            (1 - epsilon) / (epsilon * inc_energy_per_mecsq), 2);
         CELER_ASSERT(one_minus_costheta >= 0 && one_minus_costheta <= 2);
         real_type sintheta_sq = one_minus_costheta * (2 - one_minus_costheta);
         reject_prob = epsilon * sintheta_sq / (1 + epsilon_sq);
